@@ -66,4 +66,37 @@ D(T, e, x) ==
                                              TMul(T, TMul(T, TPow(T, f, g), U1(T, "ln", f)), dg.t))]
                 [] OTHER -> [err |-> TRUE]
     [] OTHER -> [err |-> TRUE]
+
+(* MissingOpMode (partial_relaxed and friends): what happens at a BINARY operator without differentiation rule.       *)
+(*   "error"       : as D                                                                                               *)
+(*   "per_operand" : (f op g)' = f' op g'         (partial_deri_per_operand)                                            *)
+(*   "none"        : (f op g)' = f op g           (partial_derisval: the operands are kept as they were)                *)
+(* A unary operator without rule is an error in every mode (partial_derivative_outer takes no mode).  A variable-free   *)
+(* operand pair gives 0 in every mode: it has been folded to a number before differentiation starts.                    *)
+RECURSIVE DM(_, _, _, _)
+DM(T, e, x, mode) ==
+  CASE e.k \in {"num", "const"} -> [err |-> FALSE, t |-> NumI(0)]
+    [] e.k = "var" -> [err |-> FALSE, t |-> NumI(IF e.v = x THEN 1 ELSE 0)]
+    [] e.k = "un" ->
+         LET s == T[e.o].usem inner == DM(T, e.a, x, mode) IN
+         IF inner.err \/ s \notin HasOuter THEN [err |-> TRUE]
+         ELSE [err |-> FALSE, t |-> TMul(T, inner.t, Outer(T, s, e.a))]
+    [] e.k = "bin" ->
+         LET s == T[e.o].sem f == e.l g == e.r df == DM(T, f, x, mode) dg == DM(T, g, x, mode) IN
+         IF df.err \/ dg.err THEN [err |-> TRUE]
+         ELSE CASE s = "add" -> [err |-> FALSE, t |-> TAdd(T, df.t, dg.t)]
+                [] s = "sub" -> [err |-> FALSE, t |-> TSub(T, df.t, dg.t)]
+                [] s = "mul" -> [err |-> FALSE, t |-> TAdd(T, TMul(T, g, df.t), TMul(T, dg.t, f))]
+                [] s = "div" -> [err |-> FALSE, t |-> TDiv(T, TSub(T, TMul(T, df.t, g), TMul(T, dg.t, f)), TMul(T, g, g))]
+                [] s = "pow" -> [err |-> FALSE,
+                                 t |-> TAdd(T, TMul(T, TMul(T, TPow(T, f, MinusOne(T, g)), g), df.t),
+                                             TMul(T, TMul(T, TPow(T, f, g), U1(T, "ln", f)), dg.t))]
+                \* a variable-free sub-expression is a number by the time it is differentiated (the deep form always folds)
+                [] TreeVars(e) = {} -> [err |-> FALSE, t |-> NumI(0)]
+                [] mode = "per_operand" -> [err |-> FALSE, t |-> Bin(e.o, df.t, dg.t)]
+                [] mode = "none" -> [err |-> FALSE, t |-> Bin(e.o, f, g)]
+                [] OTHER -> [err |-> TRUE]
+    [] OTHER -> [err |-> TRUE]
+\* the strict mode is D
+DMIsD(T, e, x) == DM(T, e, x, "error") = D(T, e, x)
 =============================================================================
